@@ -3,6 +3,7 @@ C01 — every step of `sqfs_serialize_fstree` reads back: the inode from the ref
 listing from the position and with the size stored in its inode.
 -/
 import Sqfs.Model.EncTree
+import Sqfs.Proofs.EncRaw
 import Sqfs.Proofs.EncWf
 import Sqfs.Proofs.EncInodeRT
 import Sqfs.Proofs.EncDir
@@ -13,24 +14,6 @@ open Sqfs.DirWriter (DEnt Run addEntry dirEnd dirEndGo encodeRun createInode cre
 
 /-! ### references of uncompressed metadata -/
 
-theorem rawPos_rawRef (p : Nat) : rawPos (rawRef p) = some p := by
-  have ho : p % 8192 < 2 ^ 16 := by omega
-  have href : rawRef p = p / 8192 * 8194 * 65536 + p % 8192 := by
-    unfold rawRef
-    simp only [metaBlockSize]
-    rw [← Nat.shiftLeft_add_eq_or_of_lt ho, Nat.shiftLeft_eq]
-  unfold rawPos
-  rw [href, Nat.shiftRight_eq_div_pow]
-  have h1 : (p / 8192 * 8194 * 65536 + p % 8192) / 2 ^ 16 = p / 8192 * 8194 := by omega
-  have h2 : (p / 8192 * 8194 * 65536 + p % 8192) % 65536 = p % 8192 := by omega
-  simp only [h1, h2, metaBlockSize]
-  have h3 : p / 8192 * 8194 % (8192 + 2) = 0 := Nat.mul_mod_left _ _
-  have h5 : p % 8192 < 8192 := by omega
-  have h6 : p / 8192 * 8194 / (8192 + 2) = p / 8192 := Nat.mul_div_cancel _ (by decide)
-  rw [if_pos ⟨h3, h5⟩, h6]
-  congr 1
-  have := Nat.div_add_mod p 8192
-  omega
 /-! ### what `add_entry` lets through -/
 
 theorem addAllEntries_spec : ∀ (ents : List (Bytes × Nat × Nat × Nat)) (des : List DEnt), addAllEntries ents = .ok des →
